@@ -555,6 +555,9 @@ func runC07(c *Ctx) {
 			}
 			c.check(uncond, dec, "reserve whenever incomplete", rc.Pos(), "every incomplete payload reserves room", "the reservation for an incomplete payload is skipped under an extra condition: a frame whose payload fits the buffer's capacity but not together with its header never completes - reads get a zero-length slice and Decode returns ErrNeedMore forever")
 		}
+		if len(deepCallsTo(dec, reserve)) == 0 {
+			c.bad(dec, "reserve whenever incomplete", dec.Pos(), "Decode never reserves room for an incomplete payload: a frame larger than the free space of the read buffer can never be completed - reads get a zero-length slice and Decode returns ErrNeedMore forever")
+		}
 	}
 
 	c.rule("C07-R3", "encode/decode length tables agree with each other and with RFC 6455 section 5.2", 3)
